@@ -119,11 +119,11 @@ var Registry = map[string]func(*Ctx){}
 // Meta data per property: level and the decided clause in words.
 type Meta struct {
 	Technique string
-	Level   string
-	Explain string
-	Assume  []string
-	NeedCG  bool
-	Ref     bool // needs the go-ethereum reference packages
+	Level     string
+	Explain   string
+	Assume    []string
+	NeedCG    bool
+	Ref       bool // needs the go-ethereum reference packages
 }
 
 var Metas = map[string]Meta{}
@@ -218,9 +218,8 @@ func everyPath(f *cfgx.Fn, site ssa.Instruction, pred func(g map[string]bool) bo
 
 // small aliases used by table-style rules
 func cfgxCallee(ci ssa.CallInstruction) string { return cfgx.CalleeName(ci) }
-func eqs(s string) func(string) bool         { return cfgx.Equals(s) }
-func exprOf(v ssa.Value) string              { return cfgx.Expr(v) }
-
+func eqs(s string) func(string) bool           { return cfgx.Equals(s) }
+func exprOf(v ssa.Value) string                { return cfgx.Expr(v) }
 
 // helperOnlyCalledFrom: fn is an unexported function/method of the repository all of whose callers (in the
 // call graph, synthetic wrappers skipped) are in the allowed set — a helper extracted from a reviewed writer
